@@ -2,7 +2,7 @@
 import os, sys, json, subprocess, importlib
 VERIF = os.path.dirname(os.path.dirname(os.path.abspath(__file__)))
 
-E1 = {"C01": "c01", "C02": "c02", "C15": "c15", "C19": "c19", "C03": "c03", "C04": "c04", "C14": "c14"}
+E1 = {"C01": "c01", "C02": "c02", "C15": "c15", "C19": "c19", "C03": "c03", "C04": "c04", "C14": "c14", "C05": "c05", "C06": "c06", "C07": "c07", "C09E1": "c09e1"}
 
 
 def write_evidence(pid, ev):
@@ -44,5 +44,36 @@ def run(pid, tier, seed, replay=None):
         print("%s %s: %d cases, %d distinct non-trivial, %d inconclusive, %.1fs, violations=%d" % (
             pid, tier, ev["coverage"]["evaluations"], ev["coverage"]["distinct_nontrivial"], ev["coverage"]["inconclusive"], ev["wall_s"], ev["violations"]))
         return rc
+    if pid in ("C08",):
+        sys.path.insert(0, os.path.join(VERIF, "fuzz"))
+        import e2checks
+        if replay:
+            return e2checks.replay_lfht(pid, replay)
+        rc, ev = e2checks.run_lfht(pid, tier, seed)
+        write_evidence(pid, ev)
+        print("%s %s: %d cases, %d distinct non-trivial, %.1fs, violations=%d" % (pid, tier, ev["coverage"]["evaluations"], ev["coverage"]["distinct_nontrivial"], ev["wall_s"], ev["violations"]))
+        return rc
+    if pid == "C09":
+        # composite: E2 libFuzzer campaign (all requested sizes, allocators, bounds) + E1 schedule exploration (resizes concurrent with operations)
+        sys.path.insert(0, os.path.join(VERIF, "fuzz"))
+        import e2checks, core
+        if replay and replay.endswith(".bin"):
+            return e2checks.replay_lfht(pid, replay)
+        if replay:
+            E1["C09"] = "c09e1"
+            return replay_e1(pid, replay)
+        rc2, ev2 = e2checks.run_lfht(pid, tier, seed)
+        rc1, ev1 = core.run_property("c09e1", tier, seed)
+        c1, c2 = ev1["coverage"], ev2["coverage"]
+        ev = {"property_id": pid, "tier": tier, "seed": int(seed), "level": "exploration",
+              "coverage": {"evaluations": c1["evaluations"] + c2["evaluations"], "distinct_nontrivial": c1["distinct_nontrivial"] + c2["distinct_nontrivial"],
+                           "rule": "Two campaigns. E2 (inputs): " + c2["rule"] + " For C09 the E2 oracles are: every resize call returns (8 s watchdog, confirmed by 3 stand-alone re-runs), "
+                                   "every stored node is found after each resize, the bucket count stays within [1, max_nr_buckets], the recording bucket allocator never sees an order above "
+                                   "log2(max_nr_buckets), a double allocation, or a level freed while still published. E1 (schedules): " + c1["rule"],
+                           "samples": c2["samples"][:2] + c1["samples"][:2], "e2": c2, "e1": c1},
+              "assumptions": ev2["assumptions"] + ev1["assumptions"], "wall_s": round(ev1["wall_s"] + ev2["wall_s"], 1), "violations": ev1["violations"] + ev2["violations"]}
+        write_evidence(pid, ev)
+        print("%s %s: E2 %d cases (%d non-trivial) + E1 %d cases (%d non-trivial), %.1fs, violations=%d" % (pid, tier, c2["evaluations"], c2["distinct_nontrivial"], c1["evaluations"], c1["distinct_nontrivial"], ev["wall_s"], ev["violations"]))
+        return max(rc1, rc2)
     print("unknown property", pid)
     return 2
